@@ -480,11 +480,14 @@ def check_normalized_current_value(ctx: Ctx, view: View) -> None:
     for fl in fills:
         tests = [cfg.ast[t].test for t, v in _bc(cfg, cfg.node_of(fl)) if cfg.kind[t] == "test" and v]
         guarded = [t_ for t_ in tests if any(isinstance(x, ast.Attribute) and x.attr in names for x in ast.walk(t_))]
-        ok = bool(guarded) and all(any(isinstance(x, ast.Attribute) and x.attr in flag_names for x in ast.walk(t_)) for t_ in guarded)
+        # the recomputation of the normalisation data drops the cache (a test of the validity flag in the reader is not
+        # enough: any other method that refreshes the data sets the flag again before the reader looks at it -- F55)
+        upd = ds.methods.get("__update_normalization_vars") or ds.methods.get(mangle(ds.name, "__update_normalization_vars"))
+        ok = bool(guarded) and upd is not None and any(isinstance(s_, ast.Assign) and isinstance(s_.targets[0], ast.Attribute) and s_.targets[0].attr in names and isinstance(s_.value, ast.Call) and not any(isinstance(n_, ast.Attribute) and n_.attr in names for n_ in ast.walk(s_.value)) for s_ in stmts_of(upd))
         if not ok:
             # the other design: every method that invalidates the normalisation data clears this cache as well
             ok = all(any(isinstance(x, ast.Attribute) and x.attr in names and isinstance(x.ctx, ast.Store) for x in ast.walk(m)) or any(isinstance(c_, ast.Call) and (last_attr(c_) or "").endswith("__clear_dependent_data") for c_ in ast.walk(m)) for key, (c, m) in view.methods.items() if c == ds and any(isinstance(s_, ast.Assign) and isinstance(s_.targets[0], ast.Attribute) and s_.targets[0].attr in flag_names and const_value(s_.value, None) is False for s_ in stmts_of(m)))
-        ctx.ob("2.3-derived", con, ok, "the cached normalised current value is served although the bounds may have changed: the test under which it is recomputed must also hold when the normalisation data have been invalidated (`not self.__norm_data_is_computed`), or every method invalidating them must clear it", node=fl, stmt="normalised current value recomputed after an edit of the bounds")
+        ctx.ob("2.3-derived", con, ok, "the cached normalised current value is served although the bounds may have changed: the routine that recomputes the normalisation data must drop it (or every method invalidating them must); testing the validity flag where it is read is not enough, because any other (un)normalisation in between sets the flag again", node=fl, stmt="normalised current value recomputed after an edit of the bounds")
 
 
 def check_norm_cache(ctx: Ctx, view: View) -> None:
@@ -1032,6 +1035,7 @@ def run(ctx: Ctx) -> None:
 
 # ---------------------------------------------------------------------------
 WITNESSES = [
+    {"name": "normalised-current-value-survives-the-refresh", "file": DSF, "old": "        # The normalized current value depends on the bounds: it is recomputed on demand.\n        self.__norm_current_value = {}\n        self.__norm_current_value_array = array([])\n", "new": "", "expect": "2.3"},
     {"name": "seeded-C02-12", "file": "algos/parameter_space.py", "old": "        if current_name in self.uncertain_variables:\n            position = self.uncertain_variables.index(current_name)\n            self.uncertain_variables[position] = new_name\n            dict_ = self.__uncertain_variables_to_definitions\n", "new": "        if current_name in self.uncertain_variables:\n            self.uncertain_variables.remove(current_name)\n            self.uncertain_variables.append(new_name)\n            dict_ = self.__uncertain_variables_to_definitions\n", "expect": "2.10", "note": "ParameterSpace.rename_variable moves the renamed random variable to the end of u"},
     {"name": "seeded-C02-11", "file": "algos/design_space.py", "old": "\n        self.__update_current_metadata()\n        if self.__current_value:\n            self._check_current_names()\n\n", "new": "\n        if self.__current_value:\n            self._check_current_names()\n\n        # Refresh the cached data once the new value has been validated.\n        self.__update_current_metadata()\n\n", "expect": "2.4", "note": "set_current_value refreshes the cached current-value arrays only after the valid"},
     {"name": "value-check-outside-the-rollback", "file": DSF, "old": "            try:\n                array_value = atleast_1d(value)\n                self._check_value(array_value, name)\n", "new": "            array_value = atleast_1d(value)\n            self._check_value(array_value, name)\n            try:\n", "expect": "2.4"},
